@@ -297,6 +297,19 @@ func namePrograms() []prog {
 		}
 		mk("explicit-json", fs)
 	}
+	// json_name may be any string: http-header style names and punctuation below / above the letters (the name
+	// tables index keys by byte value)
+	mk("explicit-json-headers", []*pj.Field{
+		pj.F("content_type", 1, pj.String).WithJSON("content-type"),
+		pj.F("request_id", 2, pj.String).WithJSON("x-request-id"),
+		pj.F("user_agent", 3, pj.String).WithJSON("user-agent"),
+	})
+	mk("explicit-json-punctuation", []*pj.Field{
+		pj.F("a_dash", 1, pj.Int32).WithJSON("a-b"), pj.F("a_dot", 2, pj.Int32).WithJSON("a.b"), pj.F("a_sp", 3, pj.Int32).WithJSON("a b"),
+		pj.F("a_tilde", 4, pj.Int32).WithJSON("a~b"), pj.F("a_bang", 5, pj.Int32).WithJSON("a!b"), pj.F("a_slash", 6, pj.Int32).WithJSON("a/b"),
+		pj.F("a_brace", 7, pj.Int32).WithJSON("a{b"), pj.F("a_del", 8, pj.Int32).WithJSON("a\u007fb"), pj.F("a_hi", 9, pj.Int32).WithJSON("aÿb"),
+		pj.F("a_digit", 10, pj.Int32).WithJSON("1st"), pj.F("a_dollar", 11, pj.Int32).WithJSON("$ref"), pj.F("a_plus", 12, pj.Int32).WithJSON("a+b"),
+	})
 	return out
 }
 
